@@ -215,7 +215,7 @@ def _gen_arg(rng, wrapper, pname, t, k):
 
 def gen_cases(rng, tier, h):
     names = sorted(k for k in _sigs if not k.startswith("__"))
-    per = 40 if tier == "quick" else 1200
+    per = 40 if tier == "quick" else 10000
     cases = []
     for nm in names:
         params, rt = _sigs[nm]
@@ -544,7 +544,7 @@ def h2d(s):
 
 
 def gen_double_cases(rng, tier):
-    per = 25 if tier == "quick" else 600
+    per = 25 if tier == "quick" else 6000
     cases = []
     for nm in sorted(_DSIGS):
         c = []
